@@ -102,10 +102,12 @@ LinkedChildren(lists, fname, cargs) ==
                                                         /\ CanonArgs(ArgsOf(ls[j]), RootVM) = cargs}} : ls \in lists}
 FragChildren(lists, t) ==
   UNION {{ls[i].selections : i \in {j \in DOMAIN ls : ls[j].kind = "InlineFragment" /\ ls[j].type = t}} : ls \in lists}
-PosLinked(pos, fname, cargs) == [all |-> LinkedChildren(pos.all, fname, cargs), inner |-> LinkedChildren(pos.inner, fname, cargs)]
-PosFrag(pos, t) == [all |-> pos.all \cup FragChildren(pos.all, t), inner |-> FragChildren(pos.inner, t)]
-PosOf(sels) == [all |-> {sels}, inner |-> {sels}]
-NoPos == [all |-> {}, inner |-> {}]
+\*        at |-> the position's name: the steps from the root of the operation]
+PosLinked(pos, fname, cargs) == [all |-> LinkedChildren(pos.all, fname, cargs), inner |-> LinkedChildren(pos.inner, fname, cargs),
+                                 at |-> Append(pos.at, <<"f", fname, cargs>>)]
+PosFrag(pos, t) == [all |-> pos.all \cup FragChildren(pos.all, t), inner |-> FragChildren(pos.inner, t), at |-> Append(pos.at, OnStep(t))]
+PosOf(sels, at) == [all |-> {sels}, inner |-> {sels}, at |-> at]
+NoPos(at) == [all |-> {}, inner |-> {}, at |-> at]
 ProvPos(pos) == UNION {Prov(ls) : ls \in pos.inner}
 
 \* ---- the shape of a refetch query ------------------------------------------------------------
@@ -168,7 +170,7 @@ PointerInner(q, to, schemaKnown) ==
   ELSE IF to \in TypeNames /\ Types[to].kind = "object" THEN Descend(q.norm, NodeWrap(to))
   ELSE Descend(q.norm, << [f |-> "node"] >>)
 
-PointerProblems(q, name, to, needs, root, schemaKnown) ==
+PointerProblems(q, name, to, root, schemaKnown) ==
   LET d == PointerInner(q, to, schemaKnown)
   IN  (IF ~q.op.ok THEN {"refetch operation text does not parse"} ELSE
         (IF q.op.name # root \o "__" \o name THEN {"(a) operation is not named for the field"} ELSE {})
@@ -177,8 +179,10 @@ PointerProblems(q, name, to, needs, root, schemaKnown) ==
       \cup (IF q.concreteType # "Query" THEN {"(a) wrong root type"} ELSE {})
       \cup (IF "id" \notin Range(q.allowed) THEN {"(b) strategy variable not in allowedVariables"} ELSE {})
       \cup (IF ~FirstArgsAreVars(q.norm, "node", {"id"}) THEN {"(b) strategy field does not take its variables"} ELSE {})
-      \cup (IF ~d.ok THEN {"(a) refetch query does not have the shape of the field's strategy"}
-            ELSE IF Prov(d.sels) # needs THEN {"(c) inner selection differs from what the pointer's selections read"} ELSE {})
+      \cup (IF ~d.ok THEN {"(a) refetch query does not have the shape of the field's strategy"} ELSE {})
+\* (c) for client pointers is judged after the walk (PointerC): several selections of the same pointer with the same
+\* arguments at the same position (under different aliases, or in different client fields) are ONE field at ONE
+\* position and share one refetch query, which must carry exactly the union of what they read.
 
 \* a loadably selected field `name` on `on`: the runtime uses field.entrypoint
 LoadableProblems(n, on, bundles) ==
@@ -201,7 +205,8 @@ Compose(rq, used) == [j \in DOMAIN used |-> IF used[j] + 1 \in DOMAIN rq THEN rq
 Select(rq, idx) == IF idx + 1 \in DOMAIN rq THEN rq[idx + 1] ELSE -1
 
 Finding(path, kind, name, on, sel, problems) ==
-  [path |-> path, kind |-> kind, name |-> name, on |-> on, sel |-> sel, problems |-> problems]
+  [path |-> path, kind |-> kind, name |-> name, on |-> on, sel |-> sel, problems |-> problems,
+   provOk |-> FALSE, prov |-> {}, needs |-> {}, grp |-> <<>>, posKnown |-> FALSE]
 
 \* C: context [E |-> bundle, bundles, expose, schemaKnown, pointerTo (<<on, name>> -> target type; "" unknown)]
 RECURSIVE Walk(_, _, _, _, _, _)
@@ -216,13 +221,16 @@ WalkNode(n, pos, vm, rq, path, C) ==
                exists == sel >= 0 /\ sel + 1 \in DOMAIN C.E.nested
                q == C.E.nested[sel + 1]
                d == IF exists THEN PointerInner(q, to, C.schemaKnown) ELSE [ok |-> FALSE, sels |-> <<>>]
-           IN {Finding(p, "pointer", n.fieldName, n.condition.on, sel,
-                       IF ~exists THEN {"selected refetch query does not exist"}
-                       ELSE PointerProblems(q, n.fieldName, to, Needs(n.selections, vm), C.E.on, C.schemaKnown))}
+           IN {[Finding(p, "pointer", n.fieldName, n.condition.on, sel,
+                        IF ~exists THEN {"selected refetch query does not exist"}
+                        ELSE PointerProblems(q, n.fieldName, to, C.E.on, C.schemaKnown))
+                  EXCEPT !.provOk = d.ok, !.prov = IF d.ok THEN Prov(d.sels) ELSE {}, !.needs = Needs(n.selections, vm),
+                         !.grp = <<pos.at, n.fieldName, CanonArgs(ArgsOf(n), vm)>>, !.posKnown = pos.inner # {}]}
               \cup Walk(n.condition.ast, pos, vm, rq, Append(p, "$cond"), C)
-              \cup Walk(n.selections, IF d.ok THEN PosOf(d.sels) ELSE NoPos, vm, rq, p, C)
+              \cup Walk(n.selections, LET at == Append(pos.at, <<"ptr", n.fieldName, CanonArgs(ArgsOf(n), vm)>>)
+                                       IN IF d.ok THEN PosOf(d.sels, at) ELSE NoPos(at), vm, rq, p, C)
          ELSE IF IsRefineNode(n) THEN
-           Walk(n.selections, IF Has(n.condition, "refineTo") THEN PosFrag(pos, n.condition.refineTo) ELSE NoPos,
+           Walk(n.selections, IF Has(n.condition, "refineTo") THEN PosFrag(pos, n.condition.refineTo) ELSE NoPos(Append(pos.at, OnStep("?"))),
                 vm, rq, Append(path, AliasOf(n)), C)
          ELSE Walk(n.selections, PosLinked(pos, n.fieldName, CanonArgs(ArgsOf(n), vm)), vm, rq, Append(path, AliasOf(n)), C)
     [] n.kind = "Resolver" ->
@@ -242,10 +250,19 @@ Walk(ast, pos, vm, rq, path, C) == UNION {WalkNode(ast[i], pos, vm, rq, path, C)
 
 \* an entrypoint on a root type reads from the root record; an entrypoint generated for a loadably selected
 \* field on T is read from the T record that node(id) { ... on T } normalizes
-InitPos(E) == IF E.on = E.concreteType THEN PosOf(E.norm)
-              ELSE LET d == Descend(E.norm, NodeWrap(E.on)) IN IF d.ok THEN PosOf(d.sels) ELSE NoPos
+InitPos(E) == IF E.on = E.concreteType THEN PosOf(E.norm, <<>>)
+              ELSE LET d == Descend(E.norm, NodeWrap(E.on)) IN IF d.ok THEN PosOf(d.sels, <<>>) ELSE NoPos(<<>>)
 
-Found(C) == Walk(C.E.reader.ast, InitPos(C.E), RootVM, [i \in 1..Len(C.E.nested) |-> i - 1], <<>>, C)
+FoundRaw(C) == Walk(C.E.reader.ast, InitPos(C.E), RootVM, [i \in 1..Len(C.E.nested) |-> i - 1], <<>>, C)
+
+PointerC(f, raw) ==
+  IF f.kind # "pointer" \/ ~f.provOk THEN {}
+  ELSE IF f.posKnown
+    THEN (IF f.prov # UNION {g.needs : g \in {h \in raw : h.kind = "pointer" /\ h.grp = f.grp}}
+            THEN {"(c) inner selection differs from what the selections of the pointer at this position read"} ELSE {})
+    ELSE (IF ~(f.needs \subseteq f.prov) THEN {"(c) inner selection lacks what the pointer's selections read"} ELSE {})
+
+Found(C) == LET raw == FoundRaw(C) IN {[f EXCEPT !.problems = @ \cup PointerC(f, raw)] : f \in raw}
 
 \* ---- what the abstract program says must be found ---------------------------------------------------
 Decls(prog, k, on, name) == {d \in Range(prog.decls) : d.k = k /\ d.on = on /\ d.name = name}
